@@ -80,13 +80,17 @@ CLAIMED = {
         text='Rule soundness, one theorem per rewrite of optimize, each against an arbitrary literal-respecting evaluator of the sub-terms: '
              'and_fold/and_rule, or_fold/or_rule (folding over the leading run of literals decides exactly like the evaluation, same state), '
              'if_rule3/if_rule2, do_rule, add_rule_num, add_rule_str, mul_rule_int_partial, quote_untouched, atom_untouched, evalStep_lit, and '
-             'the rewrite step composed with one evaluator layer (optimize_and_partial, optimize_or_partial), case_key_untouched (the key of a case clause is data: '
+             'the rewrite step composed with one evaluator layer (optimize_and_partial, optimize_or_partial). Global (Props/C08_Global.lean, Lemmas/Opt.lean, Lemmas/OptMain.lean): '
+             'optimize_preserves_restricted - every evaluation the restricted evaluator evalF completes also completes on the optimised expression with the same value, the same final '
+             'state and the same fuel, by induction on the fuel with one congruence lemma per operator (operand_congruence) and the rule theorems; evalF is eval with dynamic checks '
+             'that exclude fn/defsig/defmacro/groups/array on operands the pass rewrites, reval/all-scopes on an operand that is no expression form after the pass, constant products '
+             'with a non-integer factor, and operators obtained as values (restricted_is_evaluation: evalF is a restriction of eval); optimize_preserves_any_fuel; case_key_untouched (the key of a case clause is data: '
              'left as written - the defect found by this check and repaired). Correspondence and search: every '
              'generated program runs with and without the pass (without and with resolve) on fresh interpreters and on the model; oracle = '
              'result+type, stdout, variables, trace index with vs without the pass on the implementation.',
-        ref='DESIGN.md §6 C08', note='The global preservation theorem (congruence through every operator, closure bodies) is not proved; it is covered by the with/without '
-             'differential on implementation and model. The float case of the * rule rests on IEEE 1*x = x (stated for integers only).',
-        technique='Lean 4 proof (per-rewrite soundness for every sub-evaluator) + with/without-pass differential'),
+        ref='DESIGN.md §6 C08', note='The global theorem excludes evaluations that create functions / virtual signals / macros from code the pass rewrites (the two runs would store different bodies: needs a value relation, not proved); '
+             'those are covered by the with/without differential on implementation and model. The float case of the * rule rests on IEEE 1*x = x (stated for integers only).',
+        technique='Lean 4 proof (per-rewrite soundness for every sub-evaluator; global preservation for the restricted evaluator by induction on fuel with a congruence lemma per operator) + with/without-pass differential'),
     'C06': dict(
         text='Operator-level laws of the model evaluator, each against an arbitrary evaluator of the sub-terms: evalList_seq / evalList_length '
              '(operands left to right, each exactly once, state threaded), fn_captures_definition_env, call_frame (body runs in a fresh frame '
